@@ -290,7 +290,12 @@ int main(int argc, char** argv) {
                 case 2:
                     kept = result;  // shares the storage
                     kept_shadow.clear();
-                    for (auto s : kept) kept_shadow.push_back(s.id);
+                    {
+                        // read through a const reference: the non-const begin() would detach `kept`
+                        // from `result` and the two would no longer share storage during the solve
+                        const auto& ck = kept;
+                        for (auto it = ck.cbegin(); it != ck.cend(); ++it) kept_shadow.push_back(it->id);
+                    }
                     break;
             }
             // a shared copy of the inputs must survive the call untouched
@@ -300,8 +305,10 @@ int main(int argc, char** argv) {
             solved++;
             {
                 // the copy kept by the caller must be unaffected by the solve that overwrote `result`
-                bool same = kept.size() == kept_shadow.size();
-                for (size_t k = 0; same && k < kept_shadow.size(); ++k) same = kept.at(k).id == kept_shadow[k];
+                const auto& ck = kept;
+                bool same = ck.size() == kept_shadow.size();
+                size_t k = 0;
+                for (auto it = ck.cbegin(); same && it != ck.cend(); ++it, ++k) same = it->id == kept_shadow[k];
                 if (!same) {
                     std::cout << seed << " CORRUPTED a copy of an earlier result changed\n";
                     continue;
